@@ -57,6 +57,7 @@ MUTANTS = [
      "aldy.gene.Gene._init_alleles@empty-regions", "empty-regions-have-no-copies"),
     ("aldy/diplotype.py", "        elif len(solution.solution) == 1:\n            major_dict[del_allele].append(-1)", "        elif len(solution.solution) == 1:\n            pass",
      "aldy.diplotype.estimate_diplotype@deletion-placeholders", "one-placeholder-per-missing-copy"),
+    ("aldy/profile.py", "        self.threshold = 0.5\n", "        self.threshold = 0.4\n", "aldy.profile.Profile.__init__", "default/threshold"),
     ("aldy/coverage.py", "            if q >= self.profile.min_quality", "            if q > self.profile.min_quality", "aldy.coverage.Coverage.quality_filter", "post"),
 ]
 SLOW = [
